@@ -900,15 +900,20 @@ impl UnifiedCommandExecutor {
             }
             
             SetCommand::SPop { key, count } => {
-                let count = count.unwrap_or(1);
-                let members = self.storage.spop(db, key, count)?;
-                if count == 1 && !members.is_empty() {
-                    Ok(RespFrame::from_bytes(members[0].clone()))
-                } else {
-                    let frames: Vec<RespFrame> = members.into_iter()
-                        .map(|m| RespFrame::from_bytes(m))
-                        .collect();
-                    Ok(RespFrame::Array(Some(frames)))
+                let members = self.storage.spop(db, key, count.unwrap_or(1))?;
+                match count {
+                    // SPOP key: one member as a bulk string, nil when there is none
+                    None => match members.into_iter().next() {
+                        Some(member) => Ok(RespFrame::from_bytes(member)),
+                        None => Ok(RespFrame::null_bulk()),
+                    },
+                    // SPOP key count: an array, also for a count of 1 and for a missing key
+                    Some(_) => {
+                        let frames: Vec<RespFrame> = members.into_iter()
+                            .map(|m| RespFrame::from_bytes(m))
+                            .collect();
+                        Ok(RespFrame::Array(Some(frames)))
+                    }
                 }
             }
         }
